@@ -146,6 +146,20 @@ def run(ctx):
         if e1 and not h:
             violations.append({"what": "equal values with different hashes", "input": [repr(a), repr(b)], "finding": None})
 
+    # histories: the laws hold for every value whatever was parsed before it - each near miss is round-tripped right after
+    # the value it was derived from (same process, same name or same qualified name, one field changed)
+    n_hist = 0
+    for a, b in pairs[-min(len(pairs), 4000):]:
+        for x in (a, b):
+            n_hist += 1
+            im = impl_roundtrip(x)
+            if "exc" in im:
+                continue
+            if not (im["eq"] and im["eq_rev"] and im["d"] == im["d2"] and im["hash_eq"] is True):
+                violations.append({"what": "round trip fails for a value parsed right after a similar value (parse history matters)",
+                                   "input": [repr(a), repr(b)], "observed": im, "finding": None})
+                break
+
     nontriv = sum(1 for t in terms if G.nontrivial(t))
     return {
         "evaluations": len(cases) + len(pcases),
@@ -156,7 +170,7 @@ def run(ctx):
         "samples": [repr(terms[len(leaves) + 5]), repr(terms[-1]), [repr(pairs[-1][0]), repr(pairs[-1][1])]],
         "disagreements": disagreements,
         "violations": violations,
-        "stats": {"kinds": kinds, "pairs": len(pairs), "pairs_equal": n_equal, "terms": len(terms), "nontrivial_terms": nontriv},
+        "stats": {"kinds": kinds, "round_trips_after_a_similar_value": n_hist, "pairs": len(pairs), "pairs_equal": n_equal, "terms": len(terms), "nontrivial_terms": nontriv},
         "assumptions": ["float literals are restricted to non-integral finite values (the model compares floats by repr)",
                         "hash keys: equal keys imply equal Python hashes; the converse is assumed only statistically"],
     }
